@@ -416,6 +416,25 @@ def getters_monitor(ctx, hs, impls, stream):
     return bad
 
 
+def starts_monitor(ctx, hs, impls, stream):
+    """every placement starts at or after now and at or after the known release of its request"""
+    cases, where = [], []
+    for hi, im in enumerate(impls):
+        for k, r in enumerate(im["steps"]):
+            for (tid, start, rel) in r.get("starts", []):
+                cases.append("(%s, %s, %s)" % (gz(r["now"]), gz(start), gz(rel)))
+                where.append((hi, k, tid))
+    if not cases:
+        return []
+    bad = ctx.monitor_stream(stream, HEADER, "Z * Z * Z",
+                             "(fun p => let '(now, start, rel) := p in andb (now <=? start) (rel <=? start))", cases, shard=2000)
+    for b in bad[:3]:
+        hi, k, tid = where[b]
+        ctx.violation("start%d" % b, {"stream": stream, "history": hs[hi], "invocation": k, "task": tid, "now_start_release": cases[b],
+                                       "what": "a placement starts before now or before the release of its request"})
+    return bad
+
+
 def strip(hs, impls):
     """drop the bulky getter snapshots once they were checked"""
     for im in impls:
@@ -439,8 +458,8 @@ def run(ctx):
     built = ctx.build("C15", deps=["Model/Clockwork.v"])
     quick = ctx.tier == "quick"
     size = 4 if quick else 6
-    plan = [("natural", 300 if quick else 4000), ("tight", 120 if quick else 1500), ("ties", 90 if quick else 1000),
-            ("adversarial", 90 if quick else 1000), ("load", 60 if quick else 600)]
+    plan = [("natural", 240 if quick else 4000), ("tight", 100 if quick else 1500), ("ties", 80 if quick else 1000),
+            ("adversarial", 70 if quick else 1000), ("load", 50 if quick else 600)]
     ctx.rules.append(RULE % size)
     dist_all = {}
     for mode, n in plan:
